@@ -213,6 +213,8 @@ def uni(g):
     return "crate::sup::P<(%s)>" % "".join(x + ", " for x in parts)
 
 
+VOID = "crate::sup::Void"
+
 BASE = {
     "op": ["i32"], "any": ["i32", "String", "Vec<u8>"], "debug": ["i32", "String"], "fromstr": ["i32"],
     "intoiter": ["Vec<i32>"], "index": ["Vec<i32>"], "fwd": ["Box<i32>", "Vec<i32>"], "errsrc": ["crate::sup::E0"],
@@ -256,6 +258,18 @@ def pick_types(ctx, n, cls, distinct=False, cover=True):
         if not need <= used:
             # make one field mention everything (the last one, unless that breaks distinctness)
             out[-1] = uni(g)
+    if ctx.unin and not ctx.unin_done and n > 0:
+        # one field of uninhabited type, chosen so that the others still mention every parameter
+        need = set(lts + tys) if cover else set()
+        for i in range(n - 1, -1, -1):
+            used = set()
+            for j, t in enumerate(out):
+                if j != i:
+                    used |= set(free_names(t, g))
+            if need <= used and (not distinct or VOID not in out):
+                out[i] = VOID
+                ctx.unin_done = True
+                break
     return out
 
 
@@ -303,6 +317,8 @@ class Ctx:
         self.g = g
         self.nm = nm
         self.rng = rng
+        self.unin = False          # one field is to get an uninhabited type
+        self.unin_done = False
 
 
 def mk_struct(ctx, fkind, types):
@@ -350,6 +366,8 @@ def enum_of(ctx, shape, cls):
         ts = pick_types(ctx, 2, cls, distinct=True)
         return mk_enum(ctx, [("tuple", [ts[0]]), ("named", [ts[1]]), ("unit", [])])
     ts = pick_types(ctx, 3, cls, distinct=True)
+    if shape == "et":
+        return mk_enum(ctx, [("tuple", [ts[0]]), ("tuple", [ts[1], ts[2]]), ("unit", [])])
     return mk_enum(ctx, [("tuple", [ts[0]]), ("named", [ts[1], ts[2]]), ("unit", [])])
 
 
@@ -410,9 +428,11 @@ VARIANTS["Into"] = [("unit", "none"), ("t1", "none"), ("t2", "none"), ("n1", "no
                     ("t1", "refs"), ("n2", "refs"), ("t1", "types"), ("t2", "skip"), ("n2", "field")]
 VARIANTS["IntoIterator"] = [("t1", "none"), ("n1", "none"), ("t1", "refs"), ("n1", "refs"), ("t2", "marker"),
                             ("n2", "marker-refs")]
-for d in ("IsVariant", "Unwrap", "TryUnwrap"):
-    VARIANTS[d] = [("em", "none"), ("eu", "none"), ("em", "ignore")] + \
-                  ([("em", "refs")] if d != "IsVariant" else [])
+VARIANTS["IsVariant"] = [("em", "none"), ("eu", "none"), ("em", "ignore"), ("et", "none")]
+for d in ("Unwrap", "TryUnwrap"):
+    # variants with named fields are refused on purpose ("cannot unwrap anonymous records"); the documentation speaks of
+    # variants "with fields (a, b, c, ...)"
+    VARIANTS[d] = [("et", "none"), ("eu", "none"), ("et", "ignore"), ("et", "refs")]
 VARIANTS["TryFrom"] = [("eu", "repr"), ("eu", "repr-u8"), ("em", "repr"), ("eu", "repr-disc")]
 VARIANTS["TryInto"] = [("em", "none"), ("em", "refs"), ("em", "ignore"), ("e1", "none")]
 
@@ -424,6 +444,7 @@ def build(derive, shape, gname, naming, attr, flavour, rng):
     """-> Case or None (combination not expressible, e.g. a unit struct with a type parameter)"""
     g = GSETS[gname]
     ctx = Ctx(g, NAMING[naming], rng)
+    ctx.unin = flavour == "uninhabited"
     c = Case(derive, shape, gname, naming, attr, flavour)
     it = BUILDERS[group_of(derive)](c, ctx)
     if it is None:
@@ -438,37 +459,9 @@ def build(derive, shape, gname, naming, attr, flavour, rng):
         else:
             it.variants[0].keep_attrs.append("#[deprecated]")
     elif flavour == "uninhabited":
-        fs = it.all_fields()
-        if not fs:
+        if not ctx.unin_done:
             return None
-        # the last field that is not the one carrying every generic parameter
-        cand = [f for f in fs if f.ty != uni(g)] or ([] if has_lt_or_ty(g) else fs)
-        cand = [f for f in cand if not set(free_names(f.ty, g)) & {p["n"] for p in g["params"] if p["k"] != "const"}
-                or sum(1 for x in fs if set(free_names(x.ty, g)) >= set(free_names(f.ty, g))) > 1]
-        if not cand:
-            return None
-        f = cand[-1]
-        old = f.ty
-        f.ty = "crate::sup::Void"
-        if not unin_fixup(c, it, f, old):
-            return None
-        c.families = None      # field types changed after the families were computed
-        c.fam_hook = None
     return c
-
-
-def unin_fixup(c, it, f, old):
-    """keep attributes naming the replaced type consistent"""
-    for coll in [it.attrs] + [x.attrs for x in it.all_fields()] + [v.attrs for v in it.variants]:
-        for a in coll:
-            if old in a and ("(" + old in a or old + ")" in a):
-                return False
-    # every lifetime / type parameter must still be used
-    need = {p["n"] for p in it.g["params"] if p["k"] in ("lt", "ty")}
-    used = set()
-    for x in it.all_fields():
-        used |= set(free_names(x.ty, it.g))
-    return need <= used
 
 
 def group_of(d):
@@ -659,6 +652,13 @@ def b_fmt_common(c, ctx, trait, an, cls):
         it.attrs.append("#[%s(bound(%s: Clone))]" % (an, tys[0]))
     else:
         return None
+    if it is None:
+        return None
+    if trait not in ("Display", "Debug") and it.kind == "enum":
+        # implicit formatting of unit variants exists for Display only
+        for v in it.variants:
+            if v.fkind == "unit" and not v.attrs:
+                v.attrs.append('#[%s("unit")]' % an)
     c.fam_hook = ("fmt", trait)
     return it
 
